@@ -33,8 +33,14 @@ func mrotate(raw json.RawMessage) (interface{}, error) {
 
 // shutdown performs the graceful server shutdown sequence and ends the process (restart = new worker on the same dir).
 func shutdown(raw json.RawMessage) (interface{}, error) {
+	var a struct {
+		NoExit bool `json:"noexit"` // run the graceful shutdown but keep the worker answering (file-level operations only)
+	}
+	_ = json.Unmarshal(raw, &a)
 	startup.ShutdownSiglensServer(false)
-	go func() { os.Exit(0) }()
+	if !a.NoExit {
+		go func() { os.Exit(0) }()
+	}
 	return nil, nil
 }
 
